@@ -787,7 +787,7 @@ def spec_C09(tier):
                         "partial-copy paths of trsort.go need buckets with more than 7 B* suffixes (texts of some dozen to some thousand bytes) and are NOT reached: see "
                         "coverage.unreached_blocks_in_every_job. Long repeats, Fibonacci / Thue-Morse / de Bruijn words of realistic length are outside this technique's reach; "
                         "forcing the fallbacks through a verif-tagged threshold hook would verify a configuration the library never uses and is not done",
-                        "LCP with sa == nil (calls Sort internally: covered by the Sort bound only)"],
+                        "LCP with sa == nil (calls the real Sort internally; with arbitrary bytes the 256-way bucket index of k1.go cannot be case-split): covered by the Sort bound only"],
             "explanation": "Sort is executed symbolically (bucket arrays as sparse objects, every comparison a solver-decided branch) and its result compared with the reference order, t unchanged; "
                            "LCP/InvertSA/matchLen are compared with naive computations for all byte values",
             "reach": {"zzH_sortSmall": ["end"], "zzH_lcpTable": ["end"]}}
